@@ -328,23 +328,27 @@ func (u *Url) IsIPv6() bool {
 // Clone returns a deep copy of the URL.
 func (u *Url) Clone() *Url {
 	c := &Url{
-		inputUrl:     u.inputUrl,
-		scheme:       u.scheme,
-		username:     u.username,
-		password:     u.password,
-		host:         cloneStringPointer(u.host),
-		port:         cloneStringPointer(u.port),
-		decodedPort:  u.decodedPort,
-		path:         u.path.clone(),
-		query:        cloneStringPointer(u.query),
-		fragment:     cloneStringPointer(u.fragment),
-		searchParams: u.SearchParams().Clone(),
-		parser:       u.parser,
-		isIPv4:       u.isIPv4,
-		isIPv6:       u.isIPv6,
+		inputUrl:    u.inputUrl,
+		scheme:      u.scheme,
+		username:    u.username,
+		password:    u.password,
+		host:        cloneStringPointer(u.host),
+		port:        cloneStringPointer(u.port),
+		decodedPort: u.decodedPort,
+		path:        u.path.clone(),
+		query:       cloneStringPointer(u.query),
+		fragment:    cloneStringPointer(u.fragment),
+		parser:      u.parser,
+		isIPv4:      u.isIPv4,
+		isIPv6:      u.isIPv6,
 	}
-	// the cloned parameter list must write through to the clone, not to the original
-	c.searchParams.url = c
+	// Clone only reads u: copy the parameter list if there is one instead of creating it on u
+	// (Clone runs on the base URL of every resolution, possibly from several goroutines).
+	if u.searchParams != nil {
+		c.searchParams = u.searchParams.Clone()
+		// the cloned parameter list must write through to the clone, not to the original
+		c.searchParams.url = c
+	}
 	return c
 }
 
